@@ -304,7 +304,7 @@ def gen_dataset(rng):
     order = list(ids)
     rng.shuffle(order)
     return {'type': 'dataset', 'rows': rows, 'ids': ids, 'order': order + [order[0]],
-            'with_duration': rng.random() < 0.8}
+            'with_duration': rng.random() < 0.8, 'index': rng.choice(['unique', 'unique', 'per-individual', 'constant'])}
 
 
 def run_dataset(case):
@@ -317,6 +317,15 @@ def run_dataset(case):
     c = chi.ProblemModellingController(m, [chi.GaussianErrorModel()])
     kw = {} if case['with_duration'] else {'dose_duration_key': None}
     data = df.sort_values(['Time'], kind='stable') if True else df
+    # row labels carry no meaning (frames glued together with pd.concat repeat them)
+    if case.get('index') == 'per-individual':
+        seen, labels = {}, []
+        for i in data['ID']:
+            labels.append(seen.get(i, 0))
+            seen[i] = labels[-1] + 1
+        data = data.set_axis(labels, axis=0)
+    elif case.get('index') == 'constant':
+        data = data.set_axis([0] * len(data), axis=0)
     before = data.copy(deep=True)
     c.set_data(data, **kw)
     if not data.equals(before):
